@@ -4,3 +4,4 @@ PROPERTY_RULES = {
 }
 PROPERTY_RULES["C03"] = ["r01_leak"]
 PROPERTY_RULES["C15"] = ["r08_index"]
+PROPERTY_RULES["C11"] = ["r15_fail"]
